@@ -362,7 +362,13 @@ func (d *DirectoryOutputHandler) Load(
 
 	// Check the current directory hash against the cached tree
 	// so that we can avoid downloading the directory if it hasn't changed
-	localDirectoryDigest, err := d.getDirectoryHash(ctx, target, dirPath)
+	// (only for a real directory: a symlink to an identical directory is not the cached output)
+	localDirectoryDigest, err := "", error(nil)
+	if existingInfo, statErr := os.Lstat(dirPath); statErr == nil && existingInfo.IsDir() {
+		localDirectoryDigest, err = d.getDirectoryHash(ctx, target, dirPath)
+	} else {
+		err = fmt.Errorf("%s is not a directory", dirPath)
+	}
 	if err == nil && treeDigest == localDirectoryDigest {
 		logger.Debugf("directory %s already exists locally so skipping load", dirPath)
 		return nil
